@@ -199,9 +199,26 @@ static inline void v_frame_check(const uint8_t *f, size_t len) {
         V_REQUIRE("C02.qltr.len: 34 + payload length", len == 34u + (size_t)(w & 0x3FFFu));
         V_REQUIRE("C02.qltr.reserved-bit", (w & 0x4000u) == 0);
     }
+#ifdef V_HELLO_DECODE
     if (op == 0x01) {
-        v_hello_check(f, len);
+        v_hello_check(f, len);      /* whole-frame decoder: exceeded time and memory limits on every formulation tried */
     }
+#else
+    if (op == 0x01) {
+        /* compositional form: the property list is the chain the writers' contracts describe (each writer proved
+         * separately to emit a well-formed property carrying the configured attribute, tlv_contracts.h) */
+        V_REQUIRE("C02.hello.parses: the property list ends with the end marker, which is the last byte",
+                  g_hc.ended && len == g_hc.end && len >= V_HELLO_TLV_OFF + 1 && f[len - 1] == 0);
+        V_REQUIRE("C02.hello.hostid-first", g_hc.count >= 1 && g_hc.first == 0x01);
+        V_REQUIRE("C04.hello.required-set: every mandatory property present", (g_hc.seen & V_HELLO_REQUIRED) == V_HELLO_REQUIRED);
+        V_REQUIRE("C04.hello.wifi-iff: wireless properties iff the interface is wireless",
+                  g_cfg.wifi ? ((g_hc.seen & V_BIT(0x04)) != 0 && (g_hc.seen & V_BIT(0x06)) != 0 &&
+                                (g_hc.seen & V_BIT(0x09)) != 0 && (g_hc.seen & V_BIT(0x0D)) != 0 &&
+                                (((g_hc.seen & V_BIT(0x05)) != 0) == !g_cfg.bssid_fail))
+                             : (g_hc.seen & V_HELLO_WIFI) == 0);
+        V_REQUIRE("C04.hello.nothing-else", (g_hc.seen & ~(V_HELLO_REQUIRED | V_HELLO_WIFI | V_HELLO_OPTIONAL)) == 0);
+    }
+#endif
 
     /* ---- request-specific clauses -------------------------------------------------------------- */
     if (g_req.kind == V_K_PROBE) {
